@@ -10,8 +10,8 @@ import hub_sched as hs
 VERIF = os.path.dirname(os.path.dirname(os.path.abspath(__file__)))
 
 EXTRACT_V = """From Coq Require Import Extraction ExtrOcamlBasic.
-From NQ Require Import Net.Hub.
-Extraction "hubm.ml" stepl init observe erase run_labels finished.
+From NQ Require Import Net.Hub Net.Bcast.
+Extraction "hubm.ml" stepl init observe erase run_labels finished binit brun_labels bobserve.
 """
 
 
@@ -473,3 +473,52 @@ def oracle_bcast(run, cfg):
                                                f"{show(left)} from node {b} is pending in the hub: it will never be received"
                                                + where_blocked(run, t)))
     return bad
+
+
+# ---- broadcast endpoints through the model (Net/Bcast.v): step-level correspondence
+def bcfg_line(cfg):
+    parts = ["BCFG"]
+    for th in cfg:
+        if th.get("kind") == "bc":
+            ops = [{"bconnect": "C", "brecv": "R", "bclose": "D"}.get(o[0]) or f"S{o[1]}" for o in th["ops"]]
+            parts.append(f"B {th['app']} {','.join(map(str, th['remotes']))} " + " ".join(ops))
+        else:
+            a, b, i = th["key"]
+            ops = [{"connect": "C", "recv": "R", "recvnb": "N", "disconnect": "D"}.get(o[0]) or f"S{o[1]}"
+                   for o in th["ops"] if o[0] != "setcb"]
+            parts.append(f"R {a} {b} {i} " + " ".join(ops))
+    return " ; ".join(parts)
+
+
+def canon_impl_bc(run, cfg):
+    ps = []
+    for t, th in enumerate(cfg):
+        bres, res, done = [], [], 0
+        for (_i, r, *_rest) in run.results[t]:
+            if r == "blocked":
+                continue
+            done += 1
+            if th.get("kind") == "bc":
+                bres.append(["bmsg", int(r[1][1:]), unpay(r[2])] if isinstance(r, list) else r)
+            else:
+                res.append(["msg", unpay(r[1])] if isinstance(r, list) else r)
+        ps.append(dict(bres=bres, left=len(th["ops"]) - done, res=res))
+
+    def k3(k):
+        return [int(k[0][1:]), int(k[1][1:]), k[2]]
+
+    q = sorted([k3(k), [unpay(x) for x in list.__iter__(v)]] for k, v in dict.items(run.hub._messages) if list.__len__(v))
+    return dict(parties=ps, queues=q, open=sorted(k3(k) for k in set.__iter__(run.hub._open_sockets)),
+                rem=sorted(k3(k) for k in set.__iter__(run.hub._remote_sockets)))
+
+
+def canon_model_bc(o):
+    return dict(parties=o["parties"], queues=sorted(o["queues"]), open=sorted(o["open"]), rem=sorted(o["rem"]))
+
+
+def brun_model(drv, cfg, sched):
+    drv._send(bcfg_line(cfg))
+    drv._send("BRUN " + " ".join(map(str, sched)))
+    line = drv.proc.stdout.readline()
+    assert line.startswith("BRUN "), line
+    return json.loads(line[5:])
